@@ -262,6 +262,18 @@ def float_texts(mantissas, exponents, signs=('', '-')):
                 yield s + m + e
 
 
+def written_out_mantissas(max_zeros=24):
+    """few significant digits, many digits in the text: d, dd followed by 10..max_zeros zeros (values beyond 2**63, the
+    integer written out in full), without a point, with a trailing point, '.0' and '.5'; and the mirror image
+    0.000...0d with as many leading zeros"""
+    for lead in ('1', '9', '5', '93', '18', '10'):
+        for z in range(10, max_zeros + 1):
+            for tail in ('', '.', '.0', '.5'):
+                yield lead + '0' * z + tail
+            yield '0.' + '0' * z + lead
+            yield '.' + '0' * z + lead
+
+
 # partners for the independence batches: short/long, decimal/scientific, with/without point, both signs
 PARTNERS_DEC = ('5', '-100.001', '.25', '12345678901234567')
 PARTNERS_SCI = ('1.5e-10', '-9e300', '5.e+10', '.125e-300')
